@@ -48,34 +48,59 @@ Theorem C26_mode_lost_if_stat_fails : forall e fl s old m,
   read (cur (run_wfb e fl s)) (path e) = Some (target e, 384%N).
 Proof. exact g_mode_lost_if_stat_fails. Qed.
 
+(* a run that reports an error leaves no temporary file behind (unless os.Remove itself fails) — in particular
+   when only the final rename fails: error reported, temporary file removed, the file untouched *)
+Theorem C26_no_temp_left_on_failure : forall e fl s old m,
+  wf0 e s old m -> succeeds fl = false -> fl_remove fl = false -> ents (cur (run_wfb e fl s)) (tmp e) = None.
+Proof. exact g_no_temp_left_on_failure. Qed.
+Theorem C26_no_temp_left_on_rename_failure : forall e fl s old m,
+  wf0 e s old m -> fl_rename fl = true -> fl_remove fl = false ->
+  err (run_wfb e fl s) = true /\ ents (cur (run_wfb e fl s)) (tmp e) = None /\
+  read (cur (run_wfb e fl s)) (path e) = Some (old, m).
+Proof. exact g_no_temp_left_on_rename_failure. Qed.
+
+(* the temporary file is created in the directory of the path (also for a bare file name), never in os.TempDir() *)
+Theorem C26_temp_next_to_file : forall e fl s old m n i sd,
+  wf0 e s old m -> In (SysCreate n i sd) (trace (run_wfb e fl s)) -> sd = true.
+Proof. exact g_temp_next_to_file. Qed.
+
 (* no other name of the directory changes, at any crash point *)
 Theorem C26_others_untouched : forall e fl s old m k n,
   wf0 e s old m -> n <> tmp e -> n <> path e -> ents (crash_state e fl s k) n = ents s n.
 Proof. exact g_others_untouched. Qed.
 
 (* ---- non-vacuity ---- *)
-Example C26_example_wf_regular : wf0 (env0 [7;8]%N) (fs_regular [1]%N 420%N) [1]%N 420%N.
+Example C26_example_wf_regular : wf0 (env0 [7;8]%N false) (fs_regular [1]%N 420%N) [1]%N 420%N.
 Proof. vm_compute. repeat split; congruence. Qed.
-Example C26_example_wf_symlink : wf0 (env0 [7;8]%N) (fs_symlink [1]%N 416%N) [1]%N 416%N.
+Example C26_example_wf_symlink : wf0 (env0 [7;8]%N false) (fs_symlink [1]%N 416%N) [1]%N 416%N.
 Proof. vm_compute. repeat split; congruence. Qed.
 
 Example C26_example_trace :
-  trace (run_wfb (env0 [7;8]%N) (no_faults [7;8]%N) (fs_regular [1]%N 420%N))
-  = [SysCreate 3%N 11%N; SysWrite 11%N [7;8]%N; SysStat true 1%N; SysFchmod 11%N 420%N; SysClose 11%N; SysRename 3%N 1%N].
+  trace (run_wfb (env0 [7;8]%N false) (no_faults [7;8]%N) (fs_regular [1]%N 420%N))
+  = [SysCreate 3%N 11%N true; SysWrite 11%N [7;8]%N; SysStat true 1%N; SysFchmod 11%N 420%N; SysClose 11%N; SysRename 3%N 1%N].
 Proof. vm_compute. reflexivity. Qed.
 
 (* a path that is a symbolic link: the mode seen through the path is kept; the link target keeps the old content *)
 Example C26_example_symlink :
-  let r := run_wfb (env0 [7;8]%N) (no_faults [7;8]%N) (fs_symlink [1]%N 416%N) in
+  let r := run_wfb (env0 [7;8]%N false) (no_faults [7;8]%N) (fs_symlink [1]%N 416%N) in
   read (cur r) 1%N = Some ([7;8]%N, 416%N) /\ read (cur r) 2%N = Some ([1]%N, 416%N).
 Proof. vm_compute. split; reflexivity. Qed.
 
 (* a write that fails half way, split in two calls: every crash point keeps the old file, the run reports the error *)
 Example C26_example_failing_write :
   let fl := mkFl false [[7]%N] false false false false false false in
-  map (fun k => read (crash_state (env0 [7;8]%N) fl (fs_regular [1]%N 420%N) k) 1%N) [0;1;2;3;4]
-  = repeat (Some ([1]%N, 420%N)) 5 /\ err (run_wfb (env0 [7;8]%N) fl (fs_regular [1]%N 420%N)) = true.
+  map (fun k => read (crash_state (env0 [7;8]%N false) fl (fs_regular [1]%N 420%N) k) 1%N) [0;1;2;3;4]
+  = repeat (Some ([1]%N, 420%N)) 5 /\ err (run_wfb (env0 [7;8]%N false) fl (fs_regular [1]%N 420%N)) = true.
 Proof. vm_compute. split; reflexivity. Qed.
+
+(* a bare file name and a rename that fails: the temp file is created next to the file, the error is reported, the
+   temporary name is gone and the file is untouched *)
+Example C26_example_bare_rename_fails :
+  let fl := mkFl false [[7;8]%N] true false false false false true in
+  let r := run_wfb (env0 [7;8]%N true) fl (fs_regular [1]%N 420%N) in
+  trace r = [SysCreate 3%N 11%N true; SysWrite 11%N [7;8]%N; SysStat true 1%N; SysFchmod 11%N 420%N; SysClose 11%N; SysUnlink 3%N]
+  /\ err r = true /\ ents (cur r) 3%N = None /\ read (cur r) 1%N = Some ([1]%N, 420%N).
+Proof. vm_compute. repeat split; reflexivity. Qed.
 
 Print Assumptions C26_tie_ops.
 Print Assumptions C26_crash_safe.
@@ -83,3 +108,6 @@ Print Assumptions C26_run_result.
 Print Assumptions C26_mode_kept.
 Print Assumptions C26_mode_lost_if_stat_fails.
 Print Assumptions C26_others_untouched.
+Print Assumptions C26_no_temp_left_on_failure.
+Print Assumptions C26_no_temp_left_on_rename_failure.
+Print Assumptions C26_temp_next_to_file.
